@@ -1,6 +1,8 @@
 package verifh
 
 import (
+	"database/sql/driver"
+
 	"gorm.io/gorm"
 	"gorm.io/gorm/clause"
 	"gorm.io/gorm/internal/verifrt"
@@ -240,4 +242,121 @@ func H_C06_Siblings(shape int) {
 	verifrt.Assert(verifrt.SameValue(vars3, wv3), "C06.handle-find-after-finishers")
 	verifrt.Assert(sql2b == w2, "C06.later-chain-sql")
 	verifrt.Assert(verifrt.SameValue(vars2b, wv2), "C06.later-chain-vars")
+}
+
+// ---- reusable handles over the boundary store: an operation A runs from the
+// handle, then an operation B; the statements B sends must be those it sends
+// from a freshly built equal handle on which A never ran.
+
+type c06Reuse struct {
+	name   string
+	handle func(db *gorm.DB, x int) *gorm.DB
+	a, b   func(h *gorm.DB, root *gorm.DB)
+}
+
+func c06ReuseCases() []c06Reuse {
+	sess := func(db *gorm.DB) *gorm.DB { return db.Session(&gorm.Session{}) }
+	return []c06Reuse{
+		{"select-associations-delete",
+			// (one relation: gorm visits the selected relations in map order)
+			func(db *gorm.DB, x int) *gorm.DB { return sess(db.Select("Pets", "Pets.Name")) },
+			func(h, root *gorm.DB) { h.Delete(&Owner{ID: 3}) },
+			func(h, root *gorm.DB) { h.Delete(&Owner{ID: 4}) }},
+		{"select-associations-delete-nested-first",
+			func(db *gorm.DB, x int) *gorm.DB { return sess(db.Select("Profile.Bio", "Profile")) },
+			func(h, root *gorm.DB) { h.Delete(&Owner{ID: 3}) },
+			func(h, root *gorm.DB) { h.Delete(&Owner{ID: 4}) }},
+		{"or-first-soft-unscoped-then-scoped",
+			func(db *gorm.DB, x int) *gorm.DB {
+				return sess(db.Model(&Doc{}).Or("rank = ?", x).Where("title = ?", "t"))
+			},
+			func(h, root *gorm.DB) { var ds []Doc; h.Unscoped().Find(&ds) },
+			func(h, root *gorm.DB) { var ds []Doc; h.Find(&ds) }},
+		{"or-first-soft-scoped-twice",
+			func(db *gorm.DB, x int) *gorm.DB {
+				return sess(db.Model(&Doc{}).Or("rank = ?", x).Where("title = ?", "t"))
+			},
+			func(h, root *gorm.DB) { var ds []Doc; h.Find(&ds) },
+			func(h, root *gorm.DB) { var n int64; h.Count(&n) }},
+		{"handle-as-group-condition",
+			func(db *gorm.DB, x int) *gorm.DB { return sess(db.Or("age = ?", x).Where("name = ?", "n")) },
+			func(h, root *gorm.DB) { var is []Item; root.Where(h).Find(&is) },
+			func(h, root *gorm.DB) { var is []Item; h.Where("score = ?", 1).Find(&is) }},
+		{"handle-as-group-condition-single-or",
+			func(db *gorm.DB, x int) *gorm.DB { return sess(db.Or("age = ?", x)) },
+			func(h, root *gorm.DB) { var is []Item; root.Where(h).Find(&is) },
+			func(h, root *gorm.DB) { var is []Item; h.Where("score = ?", 1).Find(&is) }},
+		{"handle-as-group-condition-scopes",
+			func(db *gorm.DB, x int) *gorm.DB {
+				return sess(db.Scopes(func(tx *gorm.DB) *gorm.DB { return tx.Where("age > ?", x) }).Where("name = ?", "n"))
+			},
+			func(h, root *gorm.DB) { var is []Item; root.Where(h).Find(&is) },
+			func(h, root *gorm.DB) { var is []Item; h.Find(&is) }},
+		{"updates-then-find",
+			func(db *gorm.DB, x int) *gorm.DB { return sess(db.Model(&Item{}).Where("age = ?", x)) },
+			func(h, root *gorm.DB) { h.Updates(map[string]interface{}{"name": "z"}) },
+			func(h, root *gorm.DB) { var is []Item; h.Find(&is) }},
+		{"find-then-delete-soft",
+			func(db *gorm.DB, x int) *gorm.DB { return sess(db.Model(&Doc{}).Where("rank = ?", x)) },
+			func(h, root *gorm.DB) { var ds []Doc; h.Find(&ds) },
+			func(h, root *gorm.DB) { h.Delete(&Doc{}) }},
+		{"first-then-find-joins",
+			func(db *gorm.DB, x int) *gorm.DB { return sess(db.Joins("Company").Where("owners.id > ?", x)) },
+			func(h, root *gorm.DB) { var o Owner; h.First(&o) },
+			func(h, root *gorm.DB) { var os []Owner; h.Find(&os) }},
+		{"preload-find-twice",
+			func(db *gorm.DB, x int) *gorm.DB { return sess(db.Preload("Pets", "name <> ?", "x").Where("id > ?", x)) },
+			func(h, root *gorm.DB) { var os []Owner; h.Find(&os) },
+			func(h, root *gorm.DB) { var os []Owner; h.Find(&os) }},
+	}
+}
+
+func N_C06_Reuse(tier int) int { return len(c06ReuseCases()) }
+
+func c06Stmts(s *Store, from int) []Event {
+	var r []Event
+	for _, e := range s.Log[from:] {
+		if e.Kind == "EXEC" || e.Kind == "QUERY" {
+			r = append(r, e)
+		}
+	}
+	return r
+}
+
+func H_C06_Reuse(shape int) {
+	c := c06ReuseCases()[shape]
+	verifrt.Tag(c.name)
+	x := verifrt.Int("x")
+	open := func() (*gorm.DB, *Store) {
+		s := NewStore()
+		s.OnQuery = func(text string, args []driver.Value) RowSet { return c18Rows(text) }
+		return openReal(stubDialector{}, s, &gorm.Config{NowFunc: c07Now}), s
+	}
+	// A then B from one handle
+	root, s := open()
+	h := c.handle(root, x)
+	c.a(h, root)
+	mark := len(s.Log)
+	c.b(h, root)
+	got := c06Stmts(s, mark)
+	// B alone
+	root2, s2 := open()
+	c.b(c.handle(root2, x), root2)
+	want := c06Stmts(s2, 0)
+	verifrt.Reach("compared")
+	verifrt.Observe("got", c07Texts(got))
+	verifrt.Observe("want", c07Texts(want))
+	verifrt.Assert(len(got) == len(want), "C06.reused-handle-statements")
+	for i := range want {
+		if i >= len(got) {
+			break
+		}
+		verifrt.Assert(got[i].Text == want[i].Text, "C06.reused-handle-sql")
+		verifrt.Assert(len(got[i].Args) == len(want[i].Args), "C06.reused-handle-vars")
+		for j := range want[i].Args {
+			if j < len(got[i].Args) {
+				verifrt.Assert(verifrt.SameValue(got[i].Args[j], want[i].Args[j]), "C06.reused-handle-vars")
+			}
+		}
+	}
 }
